@@ -78,7 +78,7 @@ Proof. exact FollowLinksWildP.result_closed_selfmatch_proof. Qed.
 
 (* ---- the consequence clause, as a composition with C10's model of filterFS.Walk:
         NewFilterFS(view, {FollowPaths: reqs}) computes FollowLinks, appends the result to the
-        include patterns (follow_cfg: dedupePaths + patternmatcher.New) and walks with them
+        include patterns (follow_cfg: patternmatcher.New on the appended targets) and walks with them
         (filter_walk, no map function).  That walk reports every symlink the independent
         resolver traverses for every request and the entry it reaches - so each request
         resolves in the copy as in the source.
@@ -103,6 +103,14 @@ Theorem transfer_resolves_same_partial :
         forall r o x, In r reqs -> In o (chroot_resolve_all gmatch view r) -> needed o x ->
           In (joinc x) (map st_path (filter_walk pmatch id_map c view)).
 Proof. exact FollowTransferP.transfer_resolves_same_partial_proof. Qed.
+
+(* ---- what FollowLinks returns is a fixed point of dedupePaths: running dedupePaths once more
+        over a FollowPaths-only include list (as NewFilterFS did before the fix of finding
+        dedupe-order-sensitive-includes) changes nothing, so follow_cfg describes both versions ---- *)
+Theorem follow_targets_dedupe_fixpoint :
+  forall gmatch view fuel reqs l,
+    follow_links_opt gmatch view fuel reqs = Ok (Some l) -> dedupe_paths l = Some l.
+Proof. exact FollowTransferP.follow_targets_dedupe_fixpoint_proof. Qed.
 
 Definition dirmode : N := 2147484141.   (* ModeDir | 0755 *)
 Definition lnkmode : N := 134218239.    (* ModeSymlink | 0777 *)
@@ -249,6 +257,7 @@ Print Assumptions result_covers_resolved.
 Print Assumptions result_closed.
 Print Assumptions result_closed_selfmatch.
 Print Assumptions transfer_resolves_same_partial.
+Print Assumptions follow_targets_dedupe_fixpoint.
 Print Assumptions result_closed_refuted.
 Print Assumptions result_closed_lexical_refuted.
 Print Assumptions result_closed_wildcard_refuted.
